@@ -473,6 +473,20 @@ def c09_b(ctx: Ctx):
                 if isinstance(x, ast.Call) and isinstance(x.func, ast.Attribute) and x.func.attr in ("extend", "append", "add", "update") \
                         and isinstance(x.func.value, ast.Name):
                     coll = x.func.value.id
+        if coll is None and h.name:
+            # the handler hands the ids to a local that the loop body accumulates afterwards: `except E as e: t = e.job_ids` ... `for i in t: acc.append(i)` / `acc.extend(t)`
+            temps = {st.targets[0].id for st in h.body if isinstance(st, ast.Assign) and len(st.targets) == 1 and isinstance(st.targets[0], ast.Name)
+                     and any(isinstance(x, ast.Name) and x.id == h.name for x in ast.walk(st.value))}
+            if temps:
+                after = target.body[target.body.index(tr) + 1:] if tr in target.body else []
+                for st in after:
+                    loopvars = set()
+                    if isinstance(st, ast.For) and isinstance(st.iter, ast.Name) and st.iter.id in temps and isinstance(st.target, ast.Name):
+                        loopvars = {st.target.id}
+                    for x in walk_no_nested(st):
+                        if isinstance(x, ast.Call) and isinstance(x.func, ast.Attribute) and isinstance(x.func.value, ast.Name) and len(x.args) == 1 and isinstance(x.args[0], ast.Name):
+                            if (x.func.attr in ("extend", "update") and x.args[0].id in temps) or (x.func.attr in ("append", "add") and x.args[0].id in loopvars):
+                                coll = x.func.value.id
         if coll is None:
             out.append(ctx.viol(R, fi, h, "the handler does not record the corrupted job ids"))
             continue
